@@ -260,6 +260,14 @@ func c19Case(t *rapid.T, base string, maxCmds int, mkRunner func(root, tdir stri
 		mustGo, nearMiss = c19Populate(t, tdir)
 		if content, present := c19ModeContent(t); present {
 			os.WriteFile(filepath.Join(tdir, "mode"), []byte(content), 0666)
+			if rapid.IntRange(0, 5).Draw(t, "modeIsSymlink") == 0 {
+				// the mode file is a symbolic link to a file kept elsewhere (a dotfiles directory under version control)
+				target := filepath.Join(root, "dotfiles", "go-telemetry-mode")
+				os.MkdirAll(filepath.Dir(target), 0777)
+				os.Rename(filepath.Join(tdir, "mode"), target)
+				os.Symlink(target, filepath.Join(tdir, "mode"))
+				vstats.Label("modeFileIsSymlink")
+			}
 		}
 	}
 	run := mkRunner(root, tdir)
